@@ -89,6 +89,12 @@ def applicable_faults(case: Dict[str, Any]) -> Dict[str, List[Any]]:
         f["zero_price/in"] = any_in
         # ... also where the exchange supplied the fiat value itself, so the price is not needed to convert the amount
         f["zero_price/in.fiat_supplied"] = _rows(case, "in", lambda r: "fiat_in_no_fee" in r or "fiat_in_with_fee" in r)
+        # ... and a supplied fiat value that is itself non-positive: "non-positive amounts" covers the optional amount columns too
+        # (an explicit 0 is a value, not an empty cell - it must not be replaced by crypto_in * spot_price)
+        for field in ("fiat_in_no_fee", "fiat_in_with_fee"):
+            supplied = _rows(case, "in", lambda r, field=field: field in r)
+            f[f"zero_amount/in.{field}.fiat_supplied"] = supplied
+            f[f"negative_amount/in.{field}.fiat_supplied"] = supplied
         f["negative_price/in"] = any_in
         f["negative_fee/in.fiat_fee"] = any_in
         f["negative_fee/in.crypto_fee"] = any_in
